@@ -484,7 +484,7 @@ fn walk_case(case: &mut Case) {
             continue;
         }
         let mut complete = false;
-        for _round in 0..8 {
+        for _round in 0..40 {
             let timeouts: Vec<LAction> = model.next_steps(&s).into_iter().map(|(a, _)| a).filter(|a| matches!(a, ActorModelAction::Timeout(..))).collect();
             for a in timeouts {
                 let (next, evs) = recorded(|| model.next_state(&s, a.clone()));
@@ -538,7 +538,7 @@ fn walk_case(case: &mut Case) {
                 json!({"system": sys.to_json(), "handler_logs": format!("{:?}", logs),
                        "pending": s.actor_states.iter().map(|a| format!("{:?}", a.verif_pending_ack())).collect::<Vec<_>>(),
                        "trace_tail": trace.iter().rev().take(40).rev().collect::<Vec<_>>(),
-                       "note": "8 rounds of: fire every enabled timer, then deliver everything in flight, lowest sequencer first; no drops"}),
+                       "note": "40 rounds of: fire every enabled timer, then deliver everything in flight, lowest sequencer first; no drops"}),
             );
             return;
         }
